@@ -80,8 +80,10 @@ def App.load (app : App) (ls : List Line) (s : State) : LoadRes :=
       | some s' => .ok s' ls.length
 
 /-- What `load_from_file` sees of a file, after the text stages:
-    first line `% RT OSC v<a>.<b>.<c> savefile` (or not), second line `% <app> v<a>.<b>.<c>`,
-    then the messages; a message the scanner rejects is `none`. -/
+    first line `% RT OSC v<a>.<b>.<c> savefile`, second line `% <app> v<a>.<b>.<c>`
+    (`magic`: the two lines have this shape — the `sscanf` formats of `load_from_file` match them to
+    the end; the numbers and the name they carry are the next three fields), then the messages;
+    a message the scanner rejects is `none`. -/
 structure File where
   magic : Bool
   rtoscVer : Nat × Nat × Nat
